@@ -29,6 +29,7 @@ const (
 	KP2TRS     // taproot output spent through the script path (tree of 1, 2 or 4 leaves; leaf = <key> CHECKSIG)
 	KMultiSep  // bare: 1 <A> 1 CHECKMULTISIGVERIFY CODESEPARATOR 1 <B> 1 CHECKMULTISIG - two signatures over different script codes
 	KWshMultiSep // the same script as a P2WSH witness script (BIP143 script code from the last executed separator)
+	KP2SHZeroMulti // P2SH of five times `0 0 0 CHECKMULTISIGVERIFY` and OP_1: anyone can spend, 100 sigops in the redeem script (20 per group: no OP_1..16 in front)
 	NKinds
 )
 
@@ -211,6 +212,9 @@ func (w *Wallet) Script(kind, i int) []byte {
 	case KWshMultiSep:
 		sh := sha256.Sum256(w.multiSep(i))
 		pk = append([]byte{0x00, 0x20}, sh[:]...)
+	case KP2SHZeroMulti:
+		rh := Hash160(zeroMultiRedeem)
+		pk = append(append([]byte{0xa9, 0x14}, rh[:]...), 0x87)
 	case KTrue:
 		pk = []byte{0x51}
 	case KP2SHTrue:
@@ -255,6 +259,8 @@ func (w *Wallet) Script(kind, i int) []byte {
 	w.scripts[hex.EncodeToString(pk)] = spendInfo{kind, i}
 	return pk
 }
+
+var zeroMultiRedeem = append(bytes.Repeat([]byte{0x00, 0x00, 0x00, 0xaf}, 5), 0x51)
 
 // multiSep is the script of KMultiSep / KWshMultiSep for key i (second key: i+1).
 func (w *Wallet) multiSep(i int) []byte {
@@ -701,6 +707,9 @@ func (w *Wallet) Sign(t *Tx, i int, spent []Coin, ht byte, corrupt int) string {
 		valid = true
 	case KP2SHTrue:
 		in.ScriptSig, in.Wit = []byte{0x01, 0x51}, nil
+		valid = true
+	case KP2SHZeroMulti:
+		in.ScriptSig, in.Wit = push(zeroMultiRedeem), nil
 		valid = true
 	case KP2WSHTrue:
 		in.ScriptSig, in.Wit = nil, [][]byte{{0x51}}
